@@ -4,7 +4,7 @@
     discharged as named instance obligations by the check, which also names the part that fails under a fault.) *)
 From Coq Require Import Reals List.
 From SV Require Import Rot.RotBase Rot.RotEuler Rot.RotDispatch Rot.RotInplace Rot.RotMethods Rot.RotGJ Rot.RotGJTotal
-  Rot.RotProperty Gen.RotDispatch_gen Gen.RotInverse_gen Gen.RotInplace_gen Gen.RotMethods_gen Props.C04.
+  Rot.RotProperty Rot.RotState Rot.RotPivot Gen.RotState_gen Gen.RotPivot_gen Gen.RotDispatch_gen Gen.RotInverse_gen Gen.RotInplace_gen Gen.RotMethods_gen Props.C04.
 
 Example c04_property_hypotheses_today :
   table_ok dispatch_table = true /\ gj_prog_ok inverse_prog = true /\ gj_total_ok inverse_prog = true /\
@@ -17,3 +17,19 @@ Proof.
   intros atan2 A. destruct c04_property_hypotheses_today as (T & P1 & P2 & C & Mo).
   exact (c04_property atan2 dispatch_table inverse_prog inplace_census method_table A T P1 P2 C Mo).
 Qed.
+
+(** Round 5: today's census of process state is accepted too, hence the statement holds of every call of a history. *)
+Example c04_state_census_today_ok : state_ok state_census_today = true.
+Proof. vm_compute; reflexivity. Qed.
+
+Theorem c04_property_histories_today : forall atan2, atan2_spec atan2 ->
+  c04_statement atan2 dispatch_table inverse_prog inplace_census method_table /\ c04_history_statement state_census_today.
+Proof.
+  intros atan2 A. destruct c04_property_hypotheses_today as (T & P1 & P2 & C & Mo).
+  exact (c04_property_histories atan2 dispatch_table inverse_prog inplace_census method_table state_census_today A T P1 P2 C Mo
+           c04_state_census_today_ok).
+Qed.
+
+(** Round 5: the pivot searches of today's inverse() have an accepted shape. *)
+Example c04_pivot_shapes_today_ok : pv_shapes_ok pivot_shapes_today = true.
+Proof. vm_compute; reflexivity. Qed.
